@@ -696,7 +696,13 @@ class Arc(Entity):
         else:
             # since the AABB of a partial arc is hard, approximate
             # the bounds by just looking at the discrete values
-            discrete = self.discrete(vertices)
+            # discretize relative to the size of the arc itself: at the
+            # default unit scale the number of segments grows with the
+            # radius and a large arc would need an unbounded array
+            scale = np.ptp(vertices[self.points], axis=0).max()
+            if not (scale > 0.0 and np.isfinite(scale)):
+                scale = 1.0
+            discrete = self.discrete(vertices, scale=scale)
             bounds = np.array(
                 [discrete.min(axis=0), discrete.max(axis=0)], dtype=np.float64
             )
